@@ -8,6 +8,7 @@ import (
 	"hash"
 	"reflect"
 	"sort"
+	"strings"
 	"unsafe"
 )
 
@@ -24,11 +25,27 @@ func DeepHash(v interface{}) []byte {
 }
 
 type deep struct {
-	h    hash.Hash
-	seen map[uintptr]int
+	h     hash.Hash
+	seen  map[uintptr]int
+	trace *[]string // debugging: every tag written, in order
 }
 
-func (d *deep) tag(s string) { d.h.Write([]byte(s)); d.h.Write([]byte{0}) }
+// DeepTrace returns the sequence of structural tags DeepHash walks through (debugging aid for
+// finding what makes two digests differ).
+func DeepTrace(v interface{}) []string {
+	var l []string
+	d := &deep{h: sha256.New(), seen: map[uintptr]int{}, trace: &l}
+	d.walk(reflect.ValueOf(v), 0)
+	return l
+}
+
+func (d *deep) tag(s string) {
+	if d.trace != nil {
+		*d.trace = append(*d.trace, s)
+	}
+	d.h.Write([]byte(s))
+	d.h.Write([]byte{0})
+}
 func (d *deep) u64(x uint64) {
 	var b [8]byte
 	binary.BigEndian.PutUint64(b[:], x)
@@ -133,14 +150,18 @@ func (d *deep) walk(v reflect.Value, depth int) {
 			d.tag("nilptr")
 			return
 		}
+		// d.seen holds the pointers on the CURRENT PATH only (cycle protection).  An object reachable
+		// along two paths is walked twice: were it walked only the first time, the digest would
+		// depend on which map entry is visited first, i.e. on Go's map iteration order.
 		p := v.Pointer()
 		if _, ok := d.seen[p]; ok {
-			d.tag("back") // no numbering: map iteration order must not leak into the digest
+			d.tag("back")
 			return
 		}
-		d.seen[p] = len(d.seen)
+		d.seen[p] = 1
 		d.tag("ptr")
 		d.walk(v.Elem(), depth+1)
+		delete(d.seen, p)
 	case reflect.Interface:
 		if v.IsNil() {
 			d.tag("niliface")
@@ -188,7 +209,14 @@ func (d *deep) walk(v reflect.Value, depth int) {
 			kd := &deep{h: sha256.New(), seen: d.seen}
 			kd.walk(it.Key(), depth+1)
 			vd := &deep{h: sha256.New(), seen: d.seen}
+			if d.trace != nil {
+				var sub []string
+				vd.trace = &sub
+			}
 			vd.walk(it.Value(), depth+1)
+			if d.trace != nil {
+				*d.trace = append(*d.trace, fmt.Sprintf("mapentry key=%v val=%x {%s}", it.Key(), vd.h.Sum(nil)[:4], strings.Join(*vd.trace, " ")))
+			}
 			items = append(items, kv{kd.h.Sum(nil), vd.h.Sum(nil)})
 		}
 		sort.Slice(items, func(i, j int) bool { return string(items[i].k) < string(items[j].k) })
